@@ -30,6 +30,10 @@ def gen_script(rng, maxlen=7, cancel=False):
     recvs = ls.drain_moves(outs, rng.randrange(0, n + 2))
     parts = [sends, recvs] + ([rel] if gated else [])
     body = ls.interleave(rng, parts)
+    if rng.random() < 0.25:
+        # back-pressure that lasts: (fake) seconds pass while workers wait on their sends ("exactly once" also then)
+        for _ in range(rng.choice([1, 1, 2, 3])):
+            body.insert(rng.randrange(0, len(body) + 1), "t%d" % rng.choice([1100, 1500, 2500, 7000]))
     if cancel:
         body.insert(rng.randrange(0, len(body) + 1), "x")
     # everything still gated is released (twice over: a release before the call started is a no-op), then drain
